@@ -9,7 +9,7 @@ entropy, the jumps at Tb and Tm, mole-weighted sums, extensivity and the ideal m
 import math
 import numpy as np
 import thermosteam as tmo
-from vt.core import case_hash
+from vt.core import case_hash, exc_key
 from vt.common import thermo_of
 
 PID = 'C07'
@@ -20,21 +20,34 @@ RULE = ('(A) 22 database chemicals x reference phase l/g/s x phases s/l/g x T gr
         'equality with the unlocked chemical of the same reference phase, and a mixture with a solid-locked member; (E) phase_ref setter cycles and Chemical.copy re-checked with all pure-component clauses; '
         'synthetic orders Tb<Tm (all positions relative to T_ref) and T_ref == Tm / Tb; (F) ~370 further database chemicals (Poling heat-capacity index) at T grids spanning each phase model range '
         '(both ends) and P in 1..1e8 Pa; (G) mixtures: solid phase, gas pressure term of the mixture, single-component and equal-composition / empty / three-stream mixing, xH/xS/xCn and MultiStream.H/S/C '
-        'against the single-phase sums, Stream.H/S/C/Cn against the mole-weighted sums, include_excess_energies=True against the pure excess functors. non-trivial = a clause evaluated at a state away from the reference state / a mixture with >=2 components; distinct = hash of the case')
+        'against the single-phase sums, Stream.H/S/C/Cn against the mole-weighted sums, include_excess_energies=True against the pure excess functors. '
+        'Oracle hardening: the reference state is the literal (298.15 K, 101325 Pa, H = 0) and the class constants T_ref/P_ref/H_ref and R (a CODATA value) are compared with literals; the wiring bound is 1e-11 of the largest term plus the '
+        'additivity defect of the external Cn model measured from the functors\' own lower limits; a pinned table says which clauses must be evaluated for the 22 database chemicals (per reference phase; also after the setter, for the copy, '
+        'for synthetic chemicals and after a history) and which data they have - a clause skipped by a probe, a branch on library state or a tolerated exception is a violation (clause judged) and counted in judged:<clause>:<tag>; '
+        'an exception in the finite-difference block, in an operation of a history or in Chemical(cas, phase_ref=...) of the heat-capacity index is a violation unless it is the documented refusal (LookupError with the default '
+        'reference phase too; at_state on a chemical locked at another phase). non-trivial = a clause evaluated at a state away from the reference state / a mixture with >=2 components; distinct = hash of the case')
 MIN_NONTRIVIAL = {'quick': 300, 'thorough': 5000}
 ASSUMPTIONS = ['the symbolic clause of the quantifier (arbitrary Cn functions, arbitrary Tm/Tb/T/P) is replaced by evaluation on database and synthetic models (DESIGN section 6)',
                'database heat-capacity models whose own integral does not match their values (conditioning probe, relative error > 1e-6) are excluded from the finite-difference clauses only',
-               'R is the constant the library itself uses (thermosteam.constants.R)']
+               'R is the constant the library itself uses (thermosteam.constants.R), which must be one of the CODATA 2010/2014/2018 values',
+               'which clauses are evaluable for a database chemical (model ranges against Tm, Tb, T_ref; conditioning of the external models) was established once on the pinned data package over 300 random grids per chemical and reference phase '
+               'and is pinned as a lower bound (DB_COMPLETE, db_expected, HIST_JUDGED); the liquid finite differences and the liquid wiring of acetic acid (tabulated model) depend on the grid and are not pinned',
+               'the wiring identity tolerates the additivity defect of the external heat-capacity model (|int(T0,T2)-int(T0,T1)-int(T1,T2)| for T0 in T_ref, Tm, Tb; at most 1e-10 relative, otherwise not judged) on top of 1e-11 of the largest term']
 DB = ('Water', 'Ethanol', 'Methanol', 'Propanol', 'Butanol', 'Hexane', 'Heptane', 'Octane', 'Benzene', 'Toluene', 'Acetone', 'EthylAcetate', 'AceticAcid', 'Glycerol', 'Octanol',
       'CO2', 'N2', 'O2', 'CH4', 'Propane', 'Ethylene', 'Glucose')
 MIX = ('Water', 'Ethanol', 'Methanol', 'Octane', 'Acetone', 'Toluene')
 R = 8.314462618
+R_CODATA = (8.3144621, 8.3144598, 8.314462618)          # CODATA 2010, 2014, 2018 (the library's constant is one of them: pinned exactly, not only to 1e-6)
+# the reference state of the property, as literals (NOT read from the class under test: Chemical.T_ref / P_ref / H_ref are compared with these)
+TREF, PREF, HREF = 298.15, 101325.0, 0.0
 
 
 def required(tier):
     return (['reference-state', 'integral-wiring', 'finite-difference', 'gas-pressure', 'jump-Tb', 'jump-Tm', 'mixture-sum', 'extensive', 'mixing-term', 'mixing-never-lowers-S', 'synthetic', 'ref:l', 'ref:g', 'ref:s',
             'locked', 'locked:s', 'locked:l', 'locked:g', 'locked-equals-unlocked', 'mix-with-locked', 'setter-cycle', 'copy', 'order:Tb<Tm', 'order:Tref==T', 'wide-db', 'wide:T-limit-ends',
             'multi-phase-sum', 'stream-sum', 'excess', 'mix:solid', 'mix:gas-pressure', 'mix:single-component', 'mix:equal-composition', 'mix:three-streams', 'mix:empty-stream',
+            'judged', 'history-op', 'construct'] + [f'judged:{cl}:{tag}' for cl in ('integral-wiring', 'finite-difference', 'gas-pressure', 'jump-Tb', 'jump-Tm') for tag in ('database', 'synthetic', 'setter', 'copy', 'history', 'database-wide')]
+            + ['judged:integral-wiring:locked-' + ph for ph in 'slg'] + [
             'history', 'hist:same-objects-rebuilt', 'hist:permuted', 'hist:replaced-object', 'hist:live-package', 'hist:flag-flipped', 'hist:pure-after-history', 'hist:src:fresh', 'hist:src:copy', 'hist:src:ids-cache']
             + ['hist:op:' + o for o in HIST_REBUILD_OPS + HIST_INPLACE_OPS] + ['hist:form:' + f for f in HIST_OBJECT_FORMS + HIST_ID_FORMS])
 
@@ -73,34 +86,50 @@ def well_conditioned(model, T, h=1e-3, origins=()):
 
 def additive(model, T1, T2, origins):
     """does the external heat-capacity model integrate additively from the lower limits the library's functors use (T_ref, Tm, Tb)?
-    (tabulated / piecewise models of the data package integrate by quadrature and are additive only to ~1e-7; the wiring identity then says nothing about thermosteam)"""
+    (tabulated / piecewise models of the data package integrate by quadrature and are additive only to ~1e-7; the wiring identity then says nothing about thermosteam)
+    returns False when it does not (relative defect > 1e-10), otherwise the tuple (dH, dS) of the largest absolute additivity defects measured from those limits:
+    H(T2)-H(T1) of the library is int(T0,T2)-int(T0,T1) for one of these T0, so it may differ from int(T1,T2) by exactly that much (and no more, apart from rounding)"""
     try:
         iH = model.T_dependent_property_integral(T1, T2); iS = model.T_dependent_property_integral_over_T(T1, T2)
+        dH = dS = 0.0
         for T0_ in origins:
             if T0_ is None or not (T0_ == T0_) or T0_ <= 0: continue
             h2 = model.T_dependent_property_integral(T0_, T2); s2 = model.T_dependent_property_integral_over_T(T0_, T2)
             aH = h2 - model.T_dependent_property_integral(T0_, T1); aS = s2 - model.T_dependent_property_integral_over_T(T0_, T1)
             if not (abs(aH - iH) <= 1e-10 * max(abs(iH), abs(h2), 1.0) and abs(aS - iS) <= 1e-10 * max(abs(iS), abs(s2), 1.0)): return False
-        return True
+            dH = max(dH, abs(aH - iH)); dS = max(dS, abs(aS - iS))
+        return (dH, dS)
     except Exception:
         return False
 
 
+def check_constants(c, rec):
+    """the reference state the property speaks of is (298.15 K, 101325 Pa) with H = 0: the class constants of the code under test are compared with literals (every other clause
+    evaluates the functors at the literals, so a changed constant cannot move both sides)"""
+    rec.check(c.H_ref == HREF and c.T_ref == TREF and c.P_ref == PREF, 'reference-state', 'constants',
+              f'{type(c).__name__}.H_ref, T_ref, P_ref = {c.H_ref!r}, {c.T_ref!r}, {c.P_ref!r}; the reference state is H = {HREF} at {TREF} K, {PREF} Pa')
+
+
 def check_pure(c, rec, case, tag, synthetic=False):
+    """returns what was judged: {'wiring': phases, 'fd': phases, 'gas-pressure': n, 'jump-Tb': n, 'jump-Tm': n} (compared with the pinned expectation by the callers that have one)"""
     ref = c.phase_ref
-    Tref, Pref = c.T_ref, c.P_ref
+    Tref, Pref = TREF, PREF
+    judged = {'wiring': set(), 'fd': set(), 'gas-pressure': 0, 'jump-Tb': 0, 'jump-Tm': 0}
+    complete = case.get('complete', {})
     rec.hit('ref:' + ref)
+    check_constants(c, rec)
     # (a) reference state
     try:
         h0 = c.H(ref, Tref, Pref); s0 = c.S(ref, Tref, Pref)
-        rec.check(h0 == c.H_ref and s0 == c.S0, 'reference-state', tag, f'{c.ID} ref {ref}: H(ref)={h0!r} (H_ref={c.H_ref}), S(ref)={s0!r} (S0={c.S0})')
+        rec.check(h0 == HREF and s0 == c.S0, 'reference-state', tag, f'{c.ID} ref {ref}: H(ref)={h0!r} (must be {HREF}), S(ref)={s0!r} (S0={c.S0})')
     except Exception as e:
         rec.exception('reference-state', e, what=f'{c.ID} phase_ref={ref}: H/S at the reference state raised {type(e).__name__}: {str(e)[:120]}')
     Ts = case['Ts']; Ps = case['Ps']
     for ph in 'slg':
         Cn = getattr(c.Cn, ph)
         lim = Cn.T_limits.get(Cn.method) if Cn.method else None
-        if not Cn.method: continue
+        if not Cn.method:
+            rec.refuse(f'no heat-capacity model in a phase ({tag}): phase not judged'); continue
         Ts = (case.get('Ts_by_phase') or {}).get(ph, case['Ts'])
         for T1, T2 in zip(Ts[:-1], Ts[1:]):
             P = Ps[0]
@@ -109,7 +138,7 @@ def check_pure(c, rec, case, tag, synthetic=False):
             except Exception as e:
                 # a phase whose enthalpy needs Tm/Tb/Hvap/Hfus data the chemical lacks is a documented gap, not judged;
                 # but database chemicals with complete data must evaluate
-                if case.get('complete', {}).get(ph, False):
+                if complete.get(ph, False):
                     rec.exception('evaluate', e, what=f'{c.ID} phase_ref={ref}: H/S in phase {ph} raised {type(e).__name__}: {str(e)[:120]} although Cn, Tm, Tb, Hvap, Hfus are all available')
                 else: rec.refuse(f'H/S undefined in a phase (incomplete data)')
                 break
@@ -119,25 +148,33 @@ def check_pure(c, rec, case, tag, synthetic=False):
                 rec.refuse('model integral unavailable'); continue
             # the external model must itself integrate additively from the limits the functors use (T_ref, Tm, Tb); piecewise / tabulated
             # models of the data package sometimes do not, and then the identity says nothing about thermosteam
-            if not synthetic and not additive(Cn, T1, T2, (Tref, c.Tm, c.Tb)):
+            defect = (0.0, 0.0) if synthetic else additive(Cn, T1, T2, (Tref, c.Tm, c.Tb))
+            if defect is False:
                 rec.refuse('external heat-capacity model does not integrate additively over its range: wiring clause not judged'); continue
+            # bound: rounding of the terms summed (1e-11 of the largest) + the additivity defect of the external model measured from the functors' own lower limits
             scale = max(abs(c.H(ph, T2, P)), abs(c.H(ph, T1, P)), abs(iH), 1.0)
-            rec.check(abs(dH - iH) <= 1e-8 * scale, 'integral-wiring', f'H/{tag}', f'{c.ID} ref {ref} phase {ph}: H({T2})-H({T1}) = {dH!r} but integral of Cn = {iH!r}', residual=abs(dH - iH) / scale)
+            rec.check(abs(dH - iH) <= 1e-11 * scale + 1.5 * defect[0], 'integral-wiring', f'H/{tag}', f'{c.ID} ref {ref} phase {ph}: H({T2})-H({T1}) = {dH!r} but integral of Cn = {iH!r}', residual=max(abs(dH - iH) - 1.5 * defect[0], 0.0) / scale)
             sscale = max(abs(c.S(ph, T2, P)), abs(iS), 1.0)
-            rec.check(abs(dS - iS) <= 1e-8 * sscale, 'integral-wiring', f'S/{tag}', f'{c.ID} ref {ref} phase {ph}: S({T2})-S({T1}) = {dS!r} but integral of Cn/T = {iS!r}', residual=abs(dS - iS) / sscale)
+            rec.check(abs(dS - iS) <= 1e-11 * sscale + 1.5 * defect[1], 'integral-wiring', f'S/{tag}', f'{c.ID} ref {ref} phase {ph}: S({T2})-S({T1}) = {dS!r} but integral of Cn/T = {iS!r}', residual=max(abs(dS - iS) - 1.5 * defect[1], 0.0) / sscale)
+            judged['wiring'].add(ph)
             rec.mark_nontrivial(case_hash((c.ID, ref, ph, T1, T2, tag)))
         # (c) finite differences
         for T in Ts[1:-1]:
-            if not (synthetic or well_conditioned(Cn, T, origins=(getattr(c, 'T_ref', None), getattr(c, 'Tm', None), getattr(c, 'Tb', None)))): rec.refuse('ill-conditioned database model: finite-difference clause not judged'); continue
+            if not (synthetic or well_conditioned(Cn, T, origins=(Tref, getattr(c, 'Tm', None), getattr(c, 'Tb', None)))): rec.refuse('ill-conditioned database model: finite-difference clause not judged'); continue
             try:
                 h = 1e-3
                 P = Ps[-1]
                 dHdT = (c.H(ph, T + h, P) - c.H(ph, T - h, P)) / (2 * h); dSdT = (c.S(ph, T + h, P) - c.S(ph, T - h, P)) / (2 * h)
                 cn = Cn(T)
-            except Exception:
+            except Exception as e:
+                # the heat-capacity model itself evaluates and integrates at T-h, T+h (conditioning probe above): a raise comes from the functors
+                if complete.get(ph, False):
+                    rec.exception('finite-difference', e, what=f'{c.ID} phase_ref={ref}: H/S/Cn in phase {ph} at T={T} +- {h} raised {type(e).__name__}: {str(e)[:120]} although Cn, Tm, Tb, Hvap, Hfus are all available')
+                else: rec.refuse('finite-difference: H/S undefined in a phase (incomplete data)')
                 continue
             rec.check(abs(dHdT - cn) <= 1e-5 * abs(cn) + 1e-7 * abs(c.H(ph, T, P)) / h * 1e-9, 'finite-difference', f'dH/dT/{tag}', f'{c.ID} ref {ref} phase {ph} T={T}: dH/dT={dHdT!r} Cn={cn!r}', residual=abs(dHdT - cn) / abs(cn))
             rec.check(abs(dSdT - cn / T) <= 1e-5 * abs(cn / T), 'finite-difference', f'dS/dT/{tag}', f'{c.ID} ref {ref} phase {ph} T={T}: dS/dT={dSdT!r} Cn/T={cn / T!r}', residual=abs(dSdT - cn / T) / abs(cn / T))
+            judged['fd'].add(ph)
     # (d) gas entropy falls by R ln(P2/P1)
     try:
         Ts = (case.get('Ts_by_phase') or {}).get('g', case['Ts'])
@@ -147,11 +184,14 @@ def check_pure(c, rec, case, tag, synthetic=False):
             exp = -tmo.constants.R * math.log(P2 / P1)
             rec.check(abs(d - exp) <= 1e-10 * abs(exp) + 1e-12 * abs(c.S('g', T, P1)), 'gas-pressure', tag, f'{c.ID} ref {ref}: S(g,{P2})-S(g,{P1}) = {d!r} expected -R ln(P2/P1) = {exp!r}', residual=abs(d - exp) / max(abs(exp), 1e-300))
             rec.check(abs(tmo.constants.R - R) < 1e-6 * R, 'gas-pressure', 'R-value', f'library R = {tmo.constants.R}')
+            rec.check(tmo.constants.R in R_CODATA, 'gas-pressure', 'R-value-codata', f'library R = {tmo.constants.R!r} is none of the published CODATA values {R_CODATA}')
             # enthalpy and liquid/solid entropy do not depend on pressure in the ideal package
             dl = c.H('g', T, P2) - c.H('g', T, P1)
             rec.check(dl == 0, 'gas-pressure', f'H-independent/{tag}', f'{c.ID}: ideal gas enthalpy changed with pressure by {dl}')
+            judged['gas-pressure'] += 1
     except Exception as e:
-        if case.get('complete', {}).get('g', False): rec.exception('gas-pressure', e, what=f'{c.ID} phase_ref={ref}: gas entropy raised {type(e).__name__}: {str(e)[:100]}')
+        if complete.get('g', False): rec.exception('gas-pressure', e, what=f'{c.ID} phase_ref={ref}: gas entropy raised {type(e).__name__}: {str(e)[:100]}')
+        else: rec.refuse('gas-pressure: gas entropy undefined (incomplete data)')
     # (e) jumps
     Tb, Tm = c.Tb, c.Tm
     try:
@@ -162,9 +202,12 @@ def check_pure(c, rec, case, tag, synthetic=False):
             rec.check(abs(dh - hv) <= 1e-11 * sc, 'jump-Tb', f'H/{tag}', f'{c.ID} ref {ref}: H(g,Tb)-H(l,Tb) = {dh!r} but Hvap(Tb) = {hv!r}', residual=abs(dh - hv) / sc)
             ssc = max(abs(c.S('g', Tb, P)), abs(c.S('l', Tb, P)), abs(hv / Tb))
             rec.check(abs(ds - hv / Tb) <= 1e-11 * ssc, 'jump-Tb', f'S/{tag}', f'{c.ID} ref {ref}: S(g,Tb)-S(l,Tb) = {ds!r} but Hvap(Tb)/Tb = {hv / Tb!r}', residual=abs(ds - hv / Tb) / ssc)
+            judged['jump-Tb'] += 1
+        else: rec.refuse(f'jump at Tb: no Tb or no Hvap model ({tag}): not judged')
     except Exception as e:
-        if case.get('complete', {}).get('g', False) and case.get('complete', {}).get('l', False):
+        if complete.get('g', False) and complete.get('l', False):
             rec.exception('jump-Tb', e, what=f'{c.ID} phase_ref={ref}: evaluating the jump at Tb raised {type(e).__name__}: {str(e)[:100]}')
+        else: rec.refuse('jump at Tb: H/S undefined at Tb in the liquid or gas phase (incomplete data)')
     try:
         if Tm and c.Hfus is not None and c.Cn.s.method:
             hf = c.Hfus; P = Pref
@@ -173,9 +216,13 @@ def check_pure(c, rec, case, tag, synthetic=False):
             rec.check(abs(dh - hf) <= 1e-11 * sc, 'jump-Tm', f'H/{tag}', f'{c.ID} ref {ref}: H(l,Tm)-H(s,Tm) = {dh!r} but Hfus = {hf!r}', residual=abs(dh - hf) / sc)
             ssc = max(abs(c.S('l', Tm, P)), abs(c.S('s', Tm, P)), abs(hf / Tm), 1.0)
             rec.check(abs(ds - hf / Tm) <= 1e-11 * ssc, 'jump-Tm', f'S/{tag}', f'{c.ID} ref {ref}: S(l,Tm)-S(s,Tm) = {ds!r} but Hfus/Tm = {hf / Tm!r}', residual=abs(ds - hf / Tm) / ssc)
+            judged['jump-Tm'] += 1
+        else: rec.refuse(f'jump at Tm: no Tm, Hfus or solid heat-capacity model ({tag}): not judged')
     except Exception as e:
-        if case.get('complete', {}).get('s', False) and case.get('complete', {}).get('l', False):
+        if complete.get('s', False) and complete.get('l', False):
             rec.exception('jump-Tm', e, what=f'{c.ID} phase_ref={ref}: evaluating the jump at Tm (Tm={Tm}, Hfus={c.Hfus}, Sfus={c.Sfus}) raised {type(e).__name__}: {str(e)[:100]}')
+        else: rec.refuse('jump at Tm: H/S undefined at Tm in the solid or liquid phase (incomplete data)')
+    return judged
 
 
 def completeness(c):
@@ -200,12 +247,70 @@ def completeness(c):
     return out
 
 
+# ---- pinned expectations (literals: what is judged must not be decided by the state of the library under test alone) --------------------------------------------
+# every one of the 22 database chemicals has a heat-capacity model in each of the three phases, Tm, Tb, Hfus and a Hvap model (observed on the pinned data package; a chemical
+# that loses one of them would silently drop its solid / jump clauses). Phases in which the completeness rule holds, per reference phase (l, g, s):
+DB_COMPLETE = {'Water': ('slg', 'slg', 'slg'), 'Ethanol': ('slg', 'slg', 'slg'), 'Methanol': ('lg', 'lg', 's'), 'Propanol': ('lg', 'lg', 's'), 'Butanol': ('lg', 'lg', 's'), 'Hexane': ('slg', 'slg', 'slg'),
+               'Heptane': ('lg', 'lg', 's'), 'Octane': ('lg', 'lg', 's'), 'Benzene': ('lg', 'lg', 's'), 'Toluene': ('slg', 'slg', 'slg'), 'Acetone': ('lg', 'lg', 's'), 'EthylAcetate': ('l', 'g', 's'),
+               'AceticAcid': ('l', 'g', 's'), 'Glycerol': ('l', 'g', 's'), 'Octanol': ('lg', 'lg', 's'), 'CO2': ('l', 'g', 'sl'), 'N2': ('l', 'lg', 's'), 'O2': ('l', 'lg', 's'), 'CH4': ('l', 'slg', 'slg'),
+               'Propane': ('lg', 'lg', 's'), 'Ethylene': ('l', 'slg', 'slg'), 'Glucose': ('sl', 'g', 'sl')}
+ALL_JUDGED = {'wiring': 'slg', 'fd': 'slg', 'gas-pressure': 1, 'jump-Tb': 1, 'jump-Tm': 1}
+HIST_JUDGED = {'wiring': 'slg', 'fd': 'sg', 'gas-pressure': 1, 'jump-Tb': 1, 'jump-Tm': 1}
+
+
+def db_expected(name, ref):
+    """what check_pure judges for a database chemical on EVERY T grid of the generator (a lower bound established over 300 random grids per chemical and reference phase;
+    the liquid finite differences depend on the conditioning probe at the grid points and are not pinned)"""
+    if name == 'Glucose':       # liquid model ends below Tb: nothing across the boiling point
+        return {'wiring': 'g', 'fd': 'g', 'gas-pressure': 1, 'jump-Tb': 0, 'jump-Tm': 0} if ref == 'g' else {'wiring': 'sl', 'fd': 'sl', 'gas-pressure': 0, 'jump-Tb': 0, 'jump-Tm': 1}
+    e = {'wiring': 'slg', 'fd': 'sg', 'gas-pressure': 1, 'jump-Tb': 1, 'jump-Tm': 1}
+    if name == 'AceticAcid': e['wiring'] = 'sg'      # tabulated liquid model (starts just above Tb): the additivity probe refuses some grids
+    return e
+
+
+def db_complete(name, ref, c):
+    """completeness of a database chemical: the pinned phases OR what the current data show (a regression of the data handles cannot switch the exception clauses off)"""
+    comp = completeness(c)
+    pinned = DB_COMPLETE[name]['lgs'.index(ref)]
+    return {ph: bool(comp[ph] or ph in pinned) for ph in 'slg'}, [ph for ph in pinned if not comp[ph]]
+
+
+def check_data_present(c, rec, tag, who):
+    """the data every database chemical of this workload has (pinned): a model per phase, Tm, Tb, Hfus, Hvap"""
+    missing = [f'Cn.{ph}' for ph in 'slg' if not c.locked_state and not getattr(c.Cn, ph).method]
+    if c.locked_state and not getattr(c.Cn, 'method', None): missing.append(f'Cn (locked at {c.locked_state})')
+    if not c.Tm: missing.append('Tm')
+    if not c.Tb: missing.append('Tb')
+    if c.Hfus is None: missing.append('Hfus')
+    if c.Sfus is None: missing.append('Sfus')
+    if not c.Hvap.method: missing.append('Hvap')
+    rec.check(not missing, 'judged', f'data-present/{tag}', f'{who}: {missing} missing although the bundled database has them for this chemical (pinned): the clauses that need them would not be judged')
+    return not missing
+
+
+def judge_expected(rec, judged, exp, tag, who):
+    """the clauses the pinned table expects must have been evaluated (not skipped by a probe, a branch on library state or a tolerated exception)"""
+    for cl, key in (('integral-wiring', 'wiring'), ('finite-difference', 'fd')):
+        missing = [ph for ph in exp[key] if ph not in judged[key]]
+        rec.check(not missing, 'judged', f'{cl}/{tag}', f'{who}: the {cl} clause was not evaluated in phase(s) {missing} (judged: {sorted(judged[key])}; expected at least {exp[key]!r})')
+        n = len([ph for ph in exp[key] if ph in judged[key]])
+        if n: rec.hit(f'judged:{cl}:{tag}', n)
+    for cl in ('gas-pressure', 'jump-Tb', 'jump-Tm'):
+        if not exp[cl]: continue
+        rec.check(judged[cl] >= 1, 'judged', f'{cl}/{tag}', f'{who}: the {cl} clause was not evaluated although it is expected for this chemical')
+        if judged[cl]: rec.hit(f'judged:{cl}:{tag}')
+
+
 def run_db(case, rec):
     c = chemical(case['name'], case['ref'])
     if isinstance(c, Exception):
         rec.exception('construct', c, what=f'Chemical({case["name"]}, phase_ref={case["ref"]}) raised {type(c).__name__}: {str(c)[:120]}'); return
-    case = dict(case); case['complete'] = completeness(c)
-    check_pure(c, rec, case, 'database')
+    case = dict(case); case['complete'], lost = db_complete(case['name'], case['ref'], c)
+    who = f'{case["name"]} (phase_ref={case["ref"]})'
+    rec.check(not lost, 'judged', 'completeness/database', f'{who}: phases {lost} no longer count as complete (Cn model ranges / Tm / Tb / Hvap / Hfus) although they are pinned as complete for this chemical')
+    check_data_present(c, rec, 'database', who)
+    judged = check_pure(c, rec, case, 'database')
+    judge_expected(rec, judged, db_expected(case['name'], case['ref']), 'database', who)
 
 
 def run_synth(case, rec):
@@ -229,21 +334,26 @@ def run_synth(case, rec):
     if case['Tb'] < case['Tm']: rec.hit('order:Tb<Tm')
     if 298.15 in (case['Tb'], case['Tm']): rec.hit('order:Tref==T')
     rec.check(c.Tm == case['Tm'] and c.Tb == case['Tb'] and c.phase_ref == case['ref'], 'synthetic', 'setup', f'synthetic chemical did not take Tm/Tb/phase_ref: {c.Tm},{c.Tb},{c.phase_ref}')
-    check_pure(c, rec, case, 'synthetic')
+    judged = check_pure(c, rec, case, 'synthetic', synthetic=True)
+    judge_expected(rec, judged, ALL_JUDGED, 'synthetic', f'synthetic chemical on {case["name"]} (phase_ref={case["ref"]}, Tm={case["Tm"]}, Tb={case["Tb"]})')
 
 
-def check_locked(k, rec, case, tag, unlocked=None):
+def check_locked(k, rec, case, tag, unlocked=None, expect_model=False):
     """a phase-locked chemical: H, S take (T, P) and Cn takes (T); the reference state is the locked phase at (T_ref, P_ref)."""
     ph = k.locked_state
     rec.hit('locked'); rec.hit('locked:' + ph)
-    Tref, Pref = k.T_ref, k.P_ref
+    Tref, Pref = TREF, PREF
+    check_constants(k, rec)
     Cn = k.Cn
     if not getattr(Cn, 'method', None):
-        rec.refuse('locked phase has no heat-capacity model (incomplete data)'); return
+        # every database chemical of this workload has a model in every phase (pinned): only a chemical outside that list may lack one
+        if expect_model: rec.check(False, 'judged', f'Cn-model/locked-{ph}/{tag}', f'{k.ID} locked at {ph} has no heat-capacity model although the bundled database has one for this phase (pinned): no clause judged')
+        else: rec.refuse('locked phase has no heat-capacity model (incomplete data)')
+        return
     lim = Cn.T_limits.get(Cn.method)
     try:
         h0 = k.H(Tref, Pref); s0 = k.S(Tref, Pref)
-        rec.check(h0 == k.H_ref and s0 == k.S0, 'reference-state', f'locked-{ph}/{tag}', f'{k.ID} locked at {ph}: H(ref)={h0!r} (H_ref={k.H_ref}), S(ref)={s0!r} (S0={k.S0})')
+        rec.check(h0 == HREF and s0 == k.S0, 'reference-state', f'locked-{ph}/{tag}', f'{k.ID} locked at {ph}: H(ref)={h0!r} (must be {HREF}), S(ref)={s0!r} (S0={k.S0})')
     except Exception as e:
         rec.exception('reference-state', e, what=f'{k.ID} locked at {ph}: H/S at the reference state raised {type(e).__name__}: {str(e)[:120]}'); return
     Ts = [T for T in case['Ts'] if lim is None or lim[0] <= T <= lim[1]]
@@ -254,20 +364,23 @@ def check_locked(k, rec, case, tag, unlocked=None):
             iH = Cn.T_dependent_property_integral(T1, T2); iS = Cn.T_dependent_property_integral_over_T(T1, T2)
         except Exception as e:
             rec.exception('evaluate', e, what=f'{k.ID} locked at {ph}: H/S raised {type(e).__name__}: {str(e)[:120]} inside the range of its heat-capacity model'); break
-        if not additive(Cn, T1, T2, (Tref, k.Tm, k.Tb)):
+        defect = additive(Cn, T1, T2, (Tref, k.Tm, k.Tb))
+        if defect is False:
             rec.refuse('external heat-capacity model does not integrate additively over its range: wiring clause not judged'); continue
         scale = max(abs(k.H(T2, P)), abs(k.H(T1, P)), abs(iH), 1.0)
-        rec.check(abs(dH - iH) <= 1e-8 * scale, 'integral-wiring', f'H/locked-{ph}/{tag}', f'{k.ID} locked at {ph}: H({T2})-H({T1}) = {dH!r} but integral of Cn = {iH!r}', residual=abs(dH - iH) / scale)
+        rec.check(abs(dH - iH) <= 1e-11 * scale + 1.5 * defect[0], 'integral-wiring', f'H/locked-{ph}/{tag}', f'{k.ID} locked at {ph}: H({T2})-H({T1}) = {dH!r} but integral of Cn = {iH!r}', residual=max(abs(dH - iH) - 1.5 * defect[0], 0.0) / scale)
         sscale = max(abs(k.S(T2, P)), abs(iS), 1.0)
-        rec.check(abs(dS - iS) <= 1e-8 * sscale, 'integral-wiring', f'S/locked-{ph}/{tag}', f'{k.ID} locked at {ph}: S({T2})-S({T1}) = {dS!r} but integral of Cn/T = {iS!r}', residual=abs(dS - iS) / sscale)
+        rec.check(abs(dS - iS) <= 1e-11 * sscale + 1.5 * defect[1], 'integral-wiring', f'S/locked-{ph}/{tag}', f'{k.ID} locked at {ph}: S({T2})-S({T1}) = {dS!r} but integral of Cn/T = {iS!r}', residual=max(abs(dS - iS) - 1.5 * defect[1], 0.0) / sscale)
+        rec.hit(f'judged:integral-wiring:locked-{ph}')
         rec.mark_nontrivial(case_hash((k.ID, 'locked', ph, T1, T2, tag)))
     for T in Ts[1:-1]:
         if not well_conditioned(Cn, T): rec.refuse('ill-conditioned database model: finite-difference clause not judged'); continue
         try:
             h = 1e-3; P2 = case['Ps'][-1]
             dHdT = (k.H(T + h, P2) - k.H(T - h, P2)) / (2 * h); dSdT = (k.S(T + h, P2) - k.S(T - h, P2)) / (2 * h); cn = Cn(T)
-        except Exception:
-            continue
+        except Exception as e:
+            # T is an interior grid point inside the range of the model, and the model evaluates and integrates at T-h, T+h (conditioning probe above)
+            rec.exception('finite-difference', e, what=f'{k.ID} locked at {ph}: H/S/Cn at T={T} +- {h} raised {type(e).__name__}: {str(e)[:120]} inside the range of its heat-capacity model'); continue
         rec.check(abs(dHdT - cn) <= 1e-5 * abs(cn) + 1e-7 * abs(k.H(T, P2)) / h * 1e-9, 'finite-difference', f'dH/dT/locked-{ph}/{tag}', f'{k.ID} locked at {ph} T={T}: dH/dT={dHdT!r} Cn={cn!r}', residual=abs(dHdT - cn) / abs(cn))
         rec.check(abs(dSdT - cn / T) <= 1e-5 * abs(cn / T), 'finite-difference', f'dS/dT/locked-{ph}/{tag}', f'{k.ID} locked at {ph} T={T}: dS/dT={dSdT!r} Cn/T={cn / T!r}', residual=abs(dSdT - cn / T) / abs(cn / T))
     if ph == 'g' and Ts:
@@ -308,7 +421,8 @@ def run_lock(case, rec):
     rec.check(k.locked_state == ph and k.phase_ref == ph, 'locked', f'state/{how}', f'{name} locked at {ph} via {how}: locked_state={k.locked_state!r}, phase_ref={k.phase_ref!r}')
     if how == 'at_state-copy':
         rec.check(c.locked_state is None and c.phase_ref == ref, 'locked', 'copy-leaves-original', f'at_state(copy=True) changed the original chemical: locked_state={c.locked_state!r}, phase_ref={c.phase_ref!r}')
-    check_locked(k, rec, case, how, unlocked=chemical(name, ph) if not isinstance(chemical(name, ph), Exception) else None)
+    check_data_present(k, rec, f'locked/{how}', f'{name} locked at {ph} via {how}')
+    check_locked(k, rec, case, how, unlocked=chemical(name, ph) if not isinstance(chemical(name, ph), Exception) else None, expect_model=name in DB_COMPLETE)
 
 
 _wide = {}
@@ -322,8 +436,26 @@ def run_dbx(case, rec):
         except Exception as e: _wide[key] = e
     c = _wide[key]
     if isinstance(c, Exception):
-        rec.refuse('database entry cannot be loaded as a chemical (incomplete data)'); return
+        # 'not in the database' is the documented refusal (LookupError), and it cannot depend on the reference phase asked for: the same entry must then be refused with the default
+        # reference phase too. Anything else (an entry that loads by default but not with phase_ref = s / g; another exception type) is a failure of the constructor.
+        dk = (case['cas'], None)
+        if dk not in _wide:
+            try: _wide[dk] = tmo.Chemical(case['cas'], cache=False)
+            except Exception as e: _wide[dk] = e
+        d = _wide[dk]
+        if isinstance(c, LookupError) and isinstance(d, LookupError):
+            rec.refuse('database entry is not known to the chemical database (LookupError, with the default reference phase too): not judged'); return
+        ek = exc_key(c)
+        if ek.endswith('@?'): rec.exception('construct', c); return
+        rec.violation(f'C07/construct/database-wide/phase_ref={case["ref"]}/default-{"loads" if not isinstance(d, Exception) else "fails-" + type(d).__name__}/exception/{ek}',
+                      f'Chemical({case["cas"]!r}, phase_ref={case["ref"]!r}) raised {type(c).__name__}: {str(c)[:150]}; with the default reference phase: '
+                      f'{"loads" if not isinstance(d, Exception) else type(d).__name__ + ": " + str(d)[:100]}')
+        return
     rec.hit('wide-db')
+    rec.ok('construct')
+    # every entry of the heat-capacity index has a model in each phase once loaded (all 367 on the pinned data package): a lost model would silently drop that phase
+    nomodel = [ph for ph in 'slg' if not getattr(c.Cn, ph).method]
+    rec.check(not nomodel, 'judged', 'Cn-model/database-wide', f'{case["cas"]} (phase_ref={case["ref"]}): no heat-capacity model in phase(s) {nomodel} although the entry is in the bundled heat-capacity index (all of its entries load a model per phase)')
     case = dict(case); case['complete'] = completeness(c); case['wide'] = True
     by = {}
     for ph in 'slg':
@@ -336,7 +468,11 @@ def run_dbx(case, rec):
         rec.hit('wide:T-limit-ends')
     if 'g' not in by: case['Ts'] = case['Ts']
     case['Ts_by_phase'] = by
-    check_pure(c, rec, case, 'database-wide')
+    judged = check_pure(c, rec, case, 'database-wide')
+    for cl, key in (('integral-wiring', 'wiring'), ('finite-difference', 'fd')):
+        if judged[key]: rec.hit(f'judged:{cl}:database-wide', len(judged[key]))
+    for cl in ('gas-pressure', 'jump-Tb', 'jump-Tm'):
+        if judged[cl]: rec.hit(f'judged:{cl}:database-wide')
 
 
 def run_cycle(case, rec):
@@ -351,8 +487,12 @@ def run_cycle(case, rec):
         except Exception as e:
             rec.exception('setter-cycle', e, what=f'{case["name"]}.phase_ref = {ref!r} raised {type(e).__name__}: {str(e)[:120]}'); return
         rec.check(c.phase_ref == ref, 'setter-cycle', 'value', f'phase_ref setter: {c.phase_ref!r} after assigning {ref!r}')
-        sub = dict(case); sub['complete'] = completeness(c)
-        check_pure(c, rec, sub, 'setter')
+        sub = dict(case); sub['complete'], lost = db_complete(case['name'], ref, c)
+        who = f'{case["name"]} after phase_ref = {ref!r} (setter, route {case["refs"]})'
+        rec.check(not lost, 'judged', 'completeness/setter', f'{who}: phases {lost} no longer count as complete although they are pinned as complete for a chemical constructed with this reference phase')
+        check_data_present(c, rec, 'setter', who)
+        judged = check_pure(c, rec, sub, 'setter')
+        judge_expected(rec, judged, db_expected(case['name'], ref), 'setter', who)
         fresh = chemical(case['name'], ref)
         if not isinstance(fresh, Exception):
             # enthalpy has the same reference value (H_ref) whatever the route to this reference phase
@@ -373,9 +513,13 @@ def run_cycle(case, rec):
     except Exception as e:
         rec.exception('copy', e, what=f'{case["name"]}.copy raised {type(e).__name__}: {str(e)[:120]}'); return
     rec.hit('copy')
-    sub = dict(case); sub['complete'] = completeness(k)
+    sub = dict(case); sub['complete'], lost = db_complete(case['name'], case['refs'][-1], k)
+    who = f'copy of {case["name"]} (phase_ref={case["refs"][-1]})'
+    rec.check(not lost, 'judged', 'completeness/copy', f'{who}: phases {lost} no longer count as complete although they are pinned as complete for the original')
     rec.check(k.phase_ref == c.phase_ref, 'copy', 'phase_ref', f'copy has phase_ref {k.phase_ref!r}, original {c.phase_ref!r}')
-    check_pure(k, rec, sub, 'copy')
+    check_data_present(k, rec, 'copy', who)
+    judged = check_pure(k, rec, sub, 'copy')
+    judge_expected(rec, judged, db_expected(case['name'], case['refs'][-1]), 'copy', who)
     for ph in 'slg':
         if not sub['complete'][ph]: continue
         try:
@@ -779,11 +923,22 @@ def run_hist(case, rec):
             inplace = False
             for m in step['muts']:
                 c = objs[m['i']]
+                was_locked = c.locked_state
                 try: new = hist_mutate(c, m, case, rec)
                 except Exception as e:
-                    rec.refuse('history: a modification of a chemical was refused by the library (raised): history not continued'); return
+                    # the only documented refusal among these operations: at_state on a chemical already locked at ANOTHER phase (TypeError); the generator does not produce it,
+                    # a replayed / hand-written history may. Every other raise of a documented setter / method is a failure of that operation (keyed by operation and lock state).
+                    if m['op'] in ('at_state', 'replace-locked-copy') and isinstance(e, TypeError) and was_locked and was_locked != m['ph']:
+                        rec.refuse('history: at_state on a chemical already locked at another phase (documented TypeError): history not continued'); return
+                    ek = exc_key(e)
+                    if ek.endswith('@?'): rec.exception('history-op', e)        # raised by the harness's own arithmetic (e.g. a constant the history needs is None): inconclusive, not silent
+                    else:
+                        rec.violation(f'C07/history-op/{m["op"]}/{"locked" if was_locked else "unlocked"}/exception/{ek}',
+                                      f'history ({case["src"]} chemicals): {m["op"]} on {c.ID} ({"locked at " + was_locked if was_locked else "phase_ref=" + str(c.phase_ref)}) raised {type(e).__name__}: {str(e)[:150]}')
+                    return
                 if new is None:
                     rec.refuse('history: Tm < Tb would not hold after the modification: step skipped'); continue
+                rec.ok('history-op')
                 rec.hit('hist:op:' + m['op']); last_op = m['op']
                 if new is not c:
                     objs[m['i']] = new; alive.append(new); ver[id(new)] = 0; rec.hit('hist:replaced-object')
@@ -832,8 +987,14 @@ def run_hist(case, rec):
     sub = {'Ts': case['Ts'], 'Ps': [5e4, 1e5, 1e6]}
     for c in objs:
         rec.hit('hist:pure-after-history')
-        if c.locked_state: check_locked(c, rec, sub, 'history')
-        else: check_pure(c, rec, dict(sub, complete=completeness(c)), 'history')
+        # the members come from HIST_POOL (all in the pinned table) and every operation of a history keeps a model per phase, Tm, Tb, Hfus and a Hvap model
+        check_data_present(c, rec, 'history', f'{c.ID} after the history')
+        if c.locked_state: check_locked(c, rec, sub, 'history', expect_model=True)
+        else:
+            # (all phases count as complete: with those data present H and S evaluate in every phase over the grid - no 'undefined in a phase' refusal in 11277 chemicals of 1200 histories;
+            #  the pool has only analytic heat-capacity models, so the probes refuse no phase either, except the liquid finite differences of the spline / quasi-polynomial models)
+            judged = check_pure(c, rec, dict(sub, complete={'s': True, 'l': True, 'g': True}), 'history')
+            judge_expected(rec, judged, HIST_JUDGED, 'history', f'{c.ID} (phase_ref={c.phase_ref}) after the history')
 
 
 def gen_hist(rng):
